@@ -28,6 +28,7 @@ import (
 	olric "github.com/olric-data/olric"
 	"github.com/olric-data/olric/config"
 	"github.com/olric-data/olric/hasher"
+	"github.com/redis/go-redis/v9"
 )
 
 // Step is one client operation with the observation recorded in the simulated run.
@@ -47,11 +48,27 @@ type Step struct {
 }
 
 type Trace struct {
-	ID      string `json:"id"`
-	Members int    `json:"members"`
-	R       int    `json:"r"`
-	Entry   string `json:"entry"` // EO EN CC
-	Steps   []Step `json:"steps"`
+	ID      string   `json:"id"`
+	Members int      `json:"members"`
+	R       int      `json:"r"`
+	Entry   string   `json:"entry"` // EO EN CC
+	Steps   []Step   `json:"steps"`
+	Ps      []PsStep `json:"ps,omitempty"` // pub/sub trace (C14)
+}
+
+// PsStep is one pub/sub step with the observations of the simulated run: the PUBLISH reply and the
+// number of copies every connection received, and after every step the introspection answers of
+// every member.
+type PsStep struct {
+	Op     string     `json:"op"` // sub psub unsub punsub unsuball punsuball disconnect publish
+	Conn   int        `json:"conn"`
+	Member int        `json:"member"` // publish: the member it goes through
+	Name   string     `json:"name"`   // channel or pattern
+	Count  int        `json:"count"`  // publish: reply
+	Recv   []int      `json:"recv"`   // publish: copies received per connection
+	Chans  [][]string `json:"chans"`  // per member: PUBSUB CHANNELS (sorted)
+	NumSub [][]int64  `json:"numsub"` // per member: PUBSUB NUMSUB a b
+	NumPat []int64    `json:"numpat"` // per member
 }
 
 type Summary struct {
@@ -380,6 +397,195 @@ func (c *cluster) replay(t Trace, seq int) (string, error) {
 	return "", nil
 }
 
+// ---- pub/sub ---------------------------------------------------------------------------------
+
+// connMember: connections 0 and 1 sit on the first member, connection 2 on the last one (as in the
+// simulated runs).
+func (c *cluster) connMember(i int) *member {
+	if i == 2 {
+		return c.members[len(c.members)-1]
+	}
+	return c.members[0]
+}
+
+func (c *cluster) introspect(rcs []*redis.Client) (chans [][]string, numsub [][]int64, numpat []int64, err error) {
+	ctx := context.Background()
+	for _, rc := range rcs {
+		cs, e := rc.PubSubChannels(ctx, "").Result()
+		if e != nil {
+			return nil, nil, nil, e
+		}
+		sort.Strings(cs)
+		if cs == nil {
+			cs = []string{}
+		}
+		chans = append(chans, cs)
+		ns, e := rc.PubSubNumSub(ctx, "a", "b").Result()
+		if e != nil {
+			return nil, nil, nil, e
+		}
+		numsub = append(numsub, []int64{ns["a"], ns["b"]})
+		np, e := rc.PubSubNumPat(ctx).Result()
+		if e != nil {
+			return nil, nil, nil, e
+		}
+		numpat = append(numpat, np)
+	}
+	return
+}
+
+func (c *cluster) replayPubSub(t Trace, seq int) (string, error) {
+	ctx := context.Background()
+	var rcs []*redis.Client
+	for _, m := range c.members {
+		rcs = append(rcs, redis.NewClient(&redis.Options{Addr: m.name, MaxRetries: -1}))
+	}
+	subs := make([]*redis.PubSub, 3)
+	defer func() {
+		for _, ps := range subs {
+			if ps != nil {
+				_ = ps.Close()
+			}
+		}
+		// wait until the members have forgotten the connections of this trace
+		for i := 0; i < 100; i++ {
+			ch, _, np, err := c.introspect(rcs)
+			quiet := err == nil
+			for j := range ch {
+				if len(ch[j]) != 0 || np[j] != 0 {
+					quiet = false
+				}
+			}
+			if quiet {
+				break
+			}
+			time.Sleep(20 * time.Millisecond)
+		}
+		for _, rc := range rcs {
+			_ = rc.Close()
+		}
+	}()
+	ack := func(ps *redis.PubSub, n int) error {
+		for n > 0 {
+			m, err := ps.ReceiveTimeout(ctx, 2*time.Second)
+			if err != nil {
+				return err
+			}
+			if _, ok := m.(*redis.Subscription); ok {
+				n--
+			}
+		}
+		return nil
+	}
+	for si, st := range t.Ps {
+		where := fmt.Sprintf("trace %s step %d (%s conn%d %q via member%d)", t.ID, si, st.Op, st.Conn, st.Name, st.Member)
+		switch st.Op {
+		case "sub", "psub", "unsub", "punsub", "unsuball", "punsuball":
+			if subs[st.Conn] == nil {
+				subs[st.Conn] = redis.NewClient(&redis.Options{Addr: c.connMember(st.Conn).name, MaxRetries: -1}).Subscribe(ctx)
+			}
+			ps := subs[st.Conn]
+			var err error
+			acks := 1
+			switch st.Op {
+			case "sub":
+				err = ps.Subscribe(ctx, st.Name)
+			case "psub":
+				err = ps.PSubscribe(ctx, st.Name)
+			case "unsub":
+				err = ps.Unsubscribe(ctx, st.Name)
+			case "punsub":
+				err = ps.PUnsubscribe(ctx, st.Name)
+			case "unsuball":
+				err = ps.Unsubscribe(ctx)
+				acks = 0
+			case "punsuball":
+				err = ps.PUnsubscribe(ctx)
+				acks = 0
+			}
+			if err != nil {
+				return "", fmt.Errorf("%s: %v", where, err)
+			}
+			if acks > 0 {
+				if err := ack(ps, acks); err != nil {
+					return "", fmt.Errorf("%s: no acknowledgement: %v", where, err)
+				}
+			} else {
+				// unsubscribe-all answers one frame per subscription (or one with a null channel):
+				// drain what arrives within a short window
+				for {
+					if _, err := ps.ReceiveTimeout(ctx, 150*time.Millisecond); err != nil {
+						break
+					}
+				}
+			}
+		case "disconnect":
+			if subs[st.Conn] != nil {
+				_ = subs[st.Conn].Close()
+				subs[st.Conn] = nil
+			}
+		case "publish":
+			n, err := rcs[st.Member].Publish(ctx, st.Name, fmt.Sprintf("m%d-%d", seq, si)).Result()
+			if err != nil {
+				return "", fmt.Errorf("%s: %v", where, err)
+			}
+			if int(n) != st.Count {
+				return fmt.Sprintf("%s: real PUBLISH returned %d, simulated run %d", where, n, st.Count), nil
+			}
+			got := make([]int, 3)
+			var wg sync.WaitGroup
+			for i, ps := range subs {
+				if ps == nil {
+					continue
+				}
+				wg.Add(1)
+				go func(i int, ps *redis.PubSub) {
+					defer wg.Done()
+					for {
+						m, err := ps.ReceiveTimeout(ctx, 200*time.Millisecond)
+						if err != nil {
+							return
+						}
+						if msg, ok := m.(*redis.Message); ok && msg.Payload == fmt.Sprintf("m%d-%d", seq, si) {
+							got[i]++
+						}
+					}
+				}(i, ps)
+			}
+			wg.Wait()
+			for i := range got {
+				want := 0
+				if i < len(st.Recv) {
+					want = st.Recv[i]
+				}
+				if got[i] != want {
+					return fmt.Sprintf("%s: connection %d received %d copies on the real stack, %d in the simulated run", where, i, got[i], want), nil
+				}
+			}
+		default:
+			return "", fmt.Errorf("%s: unknown step", where)
+		}
+		// introspection after the step (a disconnect is noticed asynchronously: poll)
+		var last string
+		for try := 0; try < 50; try++ {
+			ch, ns, np, err := c.introspect(rcs)
+			if err != nil {
+				return "", fmt.Errorf("%s: introspection: %v", where, err)
+			}
+			last = fmt.Sprint(ch, ns, np)
+			if last == fmt.Sprint(st.Chans, st.NumSub, st.NumPat) {
+				last = ""
+				break
+			}
+			time.Sleep(20 * time.Millisecond)
+		}
+		if last != "" {
+			return fmt.Sprintf("%s: real introspection (channels, numsub a b, numpat per member) %s, simulated run %s", where, last, fmt.Sprint(st.Chans, st.NumSub, st.NumPat)), nil
+		}
+	}
+	return "", nil
+}
+
 func printable(s string) bool {
 	for _, c := range []byte(s) {
 		if c < 32 || c > 126 {
@@ -413,7 +619,7 @@ func main() {
 			fmt.Fprintln(os.Stderr, "bad trace:", err)
 			os.Exit(2)
 		}
-		if len(t.Steps) > 0 {
+		if len(t.Steps) > 0 || len(t.Ps) > 0 {
 			traces = append(traces, t)
 		}
 	}
@@ -441,7 +647,13 @@ func main() {
 		sum.Clusters++
 		for _, t := range groups[s] {
 			seq++
-			d, err := cl.replay(t, seq)
+			var d string
+			var err error
+			if len(t.Ps) > 0 {
+				d, err = cl.replayPubSub(t, seq)
+			} else {
+				d, err = cl.replay(t, seq)
+			}
 			switch {
 			case err != nil:
 				sum.Inconclusive++
